@@ -15,7 +15,7 @@ PROFILE = dict(
     sizes=[1, 2, 3, 4, 5, 6, 8, 14],
     lengths=[0, 2, 4, 8, 12],
     cwds=["root"],
-    weights=dict(faulted=0.3, run=2, status=0.3, start=2, finish=2, sched_cancel=0.5, purge=0.5, acct_flush=0.3, modify_source=0.7,
+    weights=dict(links=0.4, faulted=0.3, run=2, status=0.3, start=2, finish=2, sched_cancel=0.5, purge=0.5, acct_flush=0.3, modify_source=0.7,
                  delete_output=0.7, touch_file=0.3, set_file=0.5, edit_spec=0.5, advance=0.5),
     p_job_ok=0.5, p_hashing=0.4, p_huge=0.01, p_transient=0.25,
     # stale accounting between the run and the observation is excluded by the statement's premise
